@@ -43,6 +43,8 @@ package rapidproto
 //@   requires[resolver] len(opts.AnyTypeURLs) == 0 || opts.Resolver != nil
 //@   requires[depth] 0 <= depth && depth <= 12
 //@   decreases 13 - depth rank 2
+//@   note DisallowNilMessages: a message field is only ever skipped when the option is off
+//@   assert[disallow-nil-honoured] at `continue`: !opts.DisallowNilMessages
 //@   loop 1: invariant 0 <= i
 //@   loop 1: decreases n - i
 
@@ -55,6 +57,8 @@ package rapidproto
 //@   requires[resolver] len(opts.AnyTypeURLs) == 0 || opts.Resolver != nil
 //@   requires[depth] 0 <= depth && depth <= 10
 //@   decreases 13 - depth rank 1
+//@   note NoEmptyLists: the drawn element count of a list is at least 1 when the option is on (elements beyond the nesting limit are truncated: outside the statement)
+//@   assert[no-empty-lists-honoured] at `n := rapid.IntRange(min, 10)`: opts.NoEmptyLists ==> n >= 1
 //@   loop 1: invariant 0 <= i
 //@   loop 1: decreases n - i
 //@   loop 2: invariant 0 <= i
